@@ -410,10 +410,36 @@ def _copies(ctx, fi: FuncInfo, c: Comb):
     # the loop covers all slots: range(S) with S == slots (already in COUNT-1); jitted: index vector has S entries
 
 
+def _state_level(p, fi, depth: int = 0) -> bool:
+    """a function of module sr that works on the walker-state dict (reads prop_data['key'] ..., or hands its first
+    parameter to one that does) rather than on (walkers, weights, zeta): a wrapper around a comb, not a comb"""
+    if fi is None or fi.module != "sr" or depth > 4:
+        return False
+    pp = fi.pos_params()
+    if not pp:
+        return False
+    first = pp[0].name
+    for nd in ast.walk(fi.node):
+        if isinstance(nd, ast.Subscript) and isinstance(nd.value, ast.Name) and nd.value.id == first and \
+                isinstance(nd.slice, ast.Constant) and isinstance(nd.slice.value, str):
+            return True
+    for nd in ast.walk(fi.node):
+        if isinstance(nd, ast.Call) and nd.args and isinstance(nd.args[0], ast.Name) and nd.args[0].id == first:
+            r_ = p.resolve_name(p.modules[fi.module], dotted(nd.func) or "") if dotted(nd.func) else None
+            if r_ is not None and r_[0] == "func" and r_[1] != fi.qualname and _state_level(p, p.functions.get(r_[1]), depth + 1):
+                return True
+    return False
+
+
+def _wrapper_policy(p):
+    return lambda callee, rc, fr: _state_level(p, callee)
+
+
 def _comb_of(p, fi, q) -> str:
     """qualified name of the sr.* comb the reconfiguration wrapper `fi` calls when self is exactly class q"""
     ev = Evaluator(p)
     ev.auto_inline_helpers = True
+    ev.inline_policy = _wrapper_policy(p)
     try:
         ev.exact_types[sym("self")] = q
         fr = ev.eval_function(fi, self_class=q)
@@ -441,11 +467,12 @@ def callers(ctx):
                 continue
             done_callers.add((fi.qualname, kern))
             n += 1
-            k_split = common.prng1(ctx, fi, self_class=q)
+            k_split = common.prng1(ctx, fi, self_class=q, inline=_wrapper_policy(p))
             ctx.ob("PRNG-1", f"{fi.qualname}: the key is split before the offset is drawn", k_split >= 1,
                    f"{k_split} random.split call(s)", fi)
             ev = Evaluator(p)
             ev.auto_inline_helpers = True
+            ev.inline_policy = _wrapper_policy(p)
             ev.exact_types[sym("self")] = q
             fr = ev.eval_function(fi, self_class=q)
             R = ev.result(fr)
@@ -562,6 +589,31 @@ def _rank_dependent(t: T) -> bool:
     return False
 
 
+def _on_rank(cond: T, pol: bool, root: bool) -> Optional[bool]:
+    """truth of the path condition (cond is pol) on the root / on any other rank; None when cond does not compare the
+    rank with the literal 0 in a form read here"""
+    c = strip_wrappers(cond)
+    neg = False
+    while c.op == "unop" and c.args[0] == "not":
+        neg, c = not neg, strip_wrappers(c.args[1])
+    if c.op != "cmp" or len(c.args) != 3:
+        return None
+    op_, a, b = c.args
+    a, b = strip_wrappers(a), strip_wrappers(b)
+    if is_const(a, 0) and _rank_dependent(b):
+        a, b = b, a
+        op_ = {"<": ">", ">": "<", "<=": ">=", ">=": "<="}.get(op_, op_)
+    if not (is_const(b, 0) and _rank_dependent(a)) or any(x.op == "call" and x.args[0].op != "attr" for x in subterms(a)):
+        return None
+    table = {"==": (True, False), "!=": (False, True), ">": (False, True), "<": (False, False),
+             ">=": (True, True), "<=": (True, False)}
+    if op_ not in table:
+        return None
+    v = table[op_][0 if root else 1]
+    v = (not v) if neg else v
+    return v if pol else not v
+
+
 def mpi_rules(ctx):
     p = ctx.p
     n_coll = 0
@@ -569,9 +621,15 @@ def mpi_rules(ctx):
               "driver.afqmc", "driver.fp_afqmc"):
         fi = p.func(q)
         ev = Evaluator(p)
+        if q.startswith("sr."):
+            ev.auto_inline_helpers = True        # private helpers that issue the collectives of one rank are part of it
         fr = ev.eval_function(fi)
         gathers, scatters = [], []
         bad = []
+        # every rank must issue the same sequence of collectives: the sequence seen by the root and the one seen by any
+        # other rank are read off the path conditions; a collective that only one of them reaches is a deadlock
+        seqs = {True: [], False: []}
+        unread = []
         for e in ev.events:
             if e.kind != "call":
                 continue
@@ -579,17 +637,39 @@ def mpi_rules(ctx):
             if f.op == "attr" and f.args[1] in COLLECTIVES and show(f.args[0]) in ("comm",
                                                                                   "MPI.COMM_WORLD"):
                 n_coll += 1
-                dep = [c for c, pol in e.path if _rank_dependent(c)]
-                if dep:
-                    bad.append((e.line, f.args[1]))
+                dep = [(c, pol) for c, pol in e.path if _rank_dependent(c)]
+                other = tuple(sorted((c.uid, pol) for c, pol in e.path if not _rank_dependent(c)))
                 _, pos, kws = call_parts(e.data)
+                rootkw = kws.get("root")
+                sig = (f.args[1], show(rootkw) if rootkw is not None else "", other)
+                on_root = True
+                for is_root in (True, False):
+                    tv = [_on_rank(c, pol, is_root) for c, pol in dep]
+                    if any(v is None for v in tv):
+                        unread.append((e.line, f.args[1]))
+                        break
+                    if all(tv):
+                        seqs[is_root].append((sig, e.line))
+                    elif is_root:
+                        on_root = False
+                if not on_root:
+                    continue                      # the root-side buffers are judged on the calls the root makes
                 if f.args[1] == "Gather":
                     gathers.append((e, pos))
                 elif f.args[1] == "Scatter":
                     scatters.append((e, pos))
+        if unread:
+            bad = unread
+        else:
+            ra, rb = [s_ for s_, _ in seqs[True]], [s_ for s_, _ in seqs[False]]
+            if ra != rb:
+                k_ = next((i for i, (x_, y_) in enumerate(zip(ra, rb)) if x_ != y_), min(len(ra), len(rb)))
+                lr = seqs[True][k_][1] if k_ < len(seqs[True]) else None
+                lo = seqs[False][k_][1] if k_ < len(seqs[False]) else None
+                bad = [("root", lr, ra[k_][0] if k_ < len(ra) else None), ("other ranks", lo, rb[k_][0] if k_ < len(rb) else None)]
         ctx.ob("MPI-1", f"{q}: no collective is control-dependent on the rank", not bad,
                f"collectives under a rank-dependent condition (deadlock on the other ranks): {bad}" if bad
-               else "all collectives unconditional w.r.t. rank", fi)
+               else "the root and every other rank issue the same sequence of collectives", fi)
         if q.startswith("sr."):
             ok = len(gathers) == len(scatters) and len(gathers) >= 2
             ctx.ob("MPI-2", f"{q}: every Gather has a matching Scatter", ok,
